@@ -165,7 +165,7 @@ func TestVerifC16Memory(t *testing.T) {
 	defer run.Finish()
 	run.Rule("trial = fresh populated memory.Storage (cleanup goroutine running or not) x K in {2,4,12} closers via Storage.Close/ManagerBase.Close/Dispose.Close from a spin barrier x racers in {none, ops-during-close, parent-cancel}; first operation after Close round-robin over all 32 public methods x 6 keys; distinct = (first op, key, K, cleanup running, racer, overlap observed)")
 	r := run.Rand("trials")
-	n := run.Pick(30000, 300000)
+	n := run.Pick(12000, 200000)
 	batch := 2000
 	ks := []int{2, 4, 12}
 	racers := []string{"none", "ops-during-close", "parent-cancel"}
